@@ -63,6 +63,21 @@ THEOREMS = [
     'C17_latopt_exact',
     'C17_latopt_wellformed_accepted',
     'C17_latopt_malformed_rejected',
+    'C17_keyword_loop_unfold',
+    'C17_inline_trcl_m_rejected_any',
+    'C17_inline_fill_m_rejected_any',
+    'C17_fill_array_short_rejected_any',
+    'C17_lattice_no_opt_rejected_any',
+    'C17_arrives_options',
+    'C17_arrives_options_more',
+    'C17_surplus_surface_params_exact',
+    'C17_fill_array_trailing_numbers',
+    'C17_facet_skipped_cells_unchecked',
+    'C17_surface_rejection_class',
+    'C17_anonymous_surface_rejections',
+    'C17_tr_arity_error_class',
+    'C17_fill_transformation_length',
+    'C17_lattice_transformation_length',
     'C17_finished_run_is_clean',
 ]
 TRUSTED = [
@@ -125,6 +140,8 @@ def classify(cls, where, deck):
             return 'fill_array_surplus_2_void'
     if cls == 'fill_array_surplus_tr':
         return 'fill_array_surplus_tr'
+    if cls == 'cone_selector':
+        return 'cone_selector_not_unit'
     if cls == 'facet_range_skipped':
         return 'facet_unchecked_in_skipped_cell'
     if cls == 'facet_zero':
@@ -150,6 +167,30 @@ WITNESSES = {
         't\n1 0 -1 2 u=1 lat=1 fill=0:1 0:0 0:0 0 0 40 40 imp:n=1\n'
         '2 0 -5 6 fill=1 imp:n=1\n3 0 -6 imp:n=1\n4 0 5 imp:n=0\n\n'
         '1 px 1\n2 px -1\n5 so 10\n6 so 0.5\n\n', []),
+    'cone_selector_not_unit': (
+        't\n1 0 -1 imp:n=1\n2 0 1 imp:n=0\n\n1 kz 0 1 2\n\n', []),
+    'hex_lattice_nonprism_hang': (
+        't\n1 0 11 12 -13 14 15 16 u=1 lat=2 fill=0:1 0:1 0:0 2 2 2 2 imp:n=1\n'
+        '2 0 -5 6 fill=1 imp:n=1\n3 0 -6 u=2 imp:n=1\n4 0 -6 imp:n=1\n'
+        '5 0 5 imp:n=0\n\n11 p 0.5 0.5 -0.5 -2.0\n12 p 1.0 -0.5 -1.0 0.5\n'
+        '13 p 0.0 2.0 -1.0 0.5\n14 p 1.0 -1.0 1.0 -0.5\n15 p 2.0 -0.5 0.0 1.0\n'
+        '16 p 1.0 2.0 0.5 0.5\n5 so 10\n6 so 0.5\n\n', []),
+    'anonymous_error_surface_arity': (
+        't\n1 0 -1 imp:n=1\n2 0 1 imp:n=0\n\n1 kz 1\n\n', []),
+    'anonymous_error_tr_arity': (
+        't\n1 0 -1 imp:n=1\n2 0 1 imp:n=0\n\n1 so 1\n\n'
+        'tr4 0 0 0 1 0 0 0 1\n', []),
+    'anonymous_error_fill_surplus': (
+        't\n1 0 -1 2 -3 4 u=1 lat=1 fill=0:1 0:1 0:0 2 2 2 2 9 imp:n=1\n'
+        '2 0 -5 fill=1 imp:n=1\n3 0 -6 u=2 imp:n=1\n4 0 5 imp:n=0\n\n'
+        '1 px 1\n2 px -1\n3 py 1\n4 py -1\n5 so 10\n6 so 0.5\n\n', []),
+    'anonymous_error_hex_planes': (
+        't\n1 0 -11 12 -13 14 -15 16 -17 u=1 lat=2 fill=0:1 0:1 0:0 2 2 2 2 imp:n=1\n'
+        '2 0 -5 6 fill=1 imp:n=1\n3 0 -6 u=2 imp:n=1\n4 0 -6 imp:n=1\n'
+        '5 0 5 imp:n=0\n\n11 px 1\n12 px -1\n'
+        '13 p 0.5 0.8660254037844386 0 1\n14 p 0.5 0.8660254037844386 0 -1\n'
+        '15 p -0.5 0.8660254037844386 0 1\n16 p -0.5 0.8660254037844386 0 -1\n'
+        '17 pz 2\n5 so 10\n6 so 0.5\n\n', []),
     'facet_unchecked_in_skipped_cell': (
         't\n1 0 -1 imp:n=1\n2 0 1 -2.9 imp:n=0\n3 0 2 imp:n=0\n\n'
         '1 so 1\n2 rcc 0 0 0 0 0 5 3\n\n', []),
@@ -396,11 +437,61 @@ def impl_material(toks):
                          and None)
 
 
+class WatchdogTimeout(Exception):
+    '''The conversion did not end within the allowed time.'''
+
+
+def _alarm(_signum, _frame):
+    raise WatchdogTimeout('conversion still running')
+
+
+def convert_watchdog(text, args, secs=8.0):
+    '''impl.convert under a wall-clock watchdog (a generated deck converts in
+    ~10 ms; the hexVertices loop never ends on some malformed plane lists).
+    impl.convert catches the exception: conv.exc == 'WatchdogTimeout'.'''
+    import signal
+    old = signal.signal(signal.SIGALRM, _alarm)
+    signal.setitimer(signal.ITIMER_REAL, secs)
+    try:
+        with warnings.catch_warnings():
+            warnings.simplefilter('ignore')
+            return impl.convert(text, args, keep_stdout=False)
+    finally:
+        signal.setitimer(signal.ITIMER_REAL, 0)
+        signal.signal(signal.SIGALRM, old)
+
+
+OWN_EXCEPTIONS = {'TransformationError', 'LatticeError', 'MissingLatticeOptError',
+                  'ParseMCNPCellError', 'MacroBodyError', 'CellConversionError',
+                  'SurfaceConversionError', 'NotImplementedError'}
+NAMING_MESSAGES = ('Planes "P" expect', 'The type of this surface does not exist',
+                   'same sign', 'no ranges specified', 'too many ranges',
+                   'is not an integer', 'needs exactly 2', 'out of range subsurface',
+                   'Unexpected number of parameters')
+
+
+def names_problem(exc, msg):
+    '''Does the error of a rejected run say what is wrong?  The converter's own
+    exception classes and its worded ValueErrors/IndexErrors do; an exception
+    raised by Python itself (IndexError: list index out of range, TypeError:
+    _sphere() missing ..., KeyError: 't', StopIteration, AssertionError,
+    ZeroDivisionError, unpacking ValueErrors) does not.'''
+    if exc in OWN_EXCEPTIONS:
+        return True
+    return any(text in msg for text in NAMING_MESSAGES)
+
+
+ANONYMOUS_CLASS = {'surface_arity': 'anonymous_error_surface_arity',
+                   'tr_card_arity': 'anonymous_error_tr_arity',
+                   'fill_array_len': 'anonymous_error_fill_surplus',
+                   'fill_array_surplus_tr': 'anonymous_error_fill_surplus',
+                   'lattice_nsurf': 'anonymous_error_hex_planes',
+                   'hex_nonprism': 'anonymous_error_hex_planes',
+                   'cone_selector': 'cone_selector_not_unit'}
+
+
 def impl_deck(deck):
-    with warnings.catch_warnings():
-        warnings.simplefilter('ignore')
-        conv = impl.convert(G.render(deck), G.cli_args(deck),
-                            keep_stdout=False)
+    conv = convert_watchdog(G.render(deck), G.cli_args(deck))
     if conv.ok:
         return ('ok', None), conv
     return ('err', G.err_of(conv.exc, conv.msg), conv.exc, conv.msg[:200]), conv
@@ -657,7 +748,82 @@ def _tie(res, name, case_type, check_fun, cases, metas, describe):
     return bad
 
 
+def anchored_functions():
+    '''The validation code of the property's anchors (properties.jsonl).'''
+    from MIP.mip import datacard
+    from t4_geom_convert import main as t4main
+    from t4_geom_convert.Kernel.Composition import \
+        CompositionConversionMCNPToT4 as comp
+    from t4_geom_convert.Kernel.FileHandlers.Parser import ParseMCNPSurface
+    from t4_geom_convert.Kernel.FileHandlers.Parser.ParseMCNPCell import \
+        ParseMCNPCell
+    from t4_geom_convert.Kernel.Surface import ESurfaceTypeMCNP, MacroBodies
+    from t4_geom_convert.Kernel.Transformation import Transformation
+    from t4_geom_convert.Kernel.Volume import Lattice
+    from t4_geom_convert.Kernel.Volume.CellConversion import CellConversion
+    return [t4main.parse_lattice, Lattice.parse_ranges,
+            Lattice.LatticeBounds.size,
+            Lattice.squareLatticeReciprocalVecs,
+            Transformation.normalize_transform, Transformation.normalize_matrix,
+            Transformation.get_mcnp_transforms,
+            ParseMCNPCell.__init__, ParseMCNPCell.parse_importance_cards,
+            ParseMCNPCell.parse_one_cell_worker, ParseMCNPCell.to_fillid,
+            ParseMCNPCell.parse_keywords, ParseMCNPCell.parse_fill_kw,
+            ParseMCNPCell.parse_lat_kw, ParseMCNPCell.parse_trcl_kw,
+            datacard.expand_data_card, datacard.to_float,
+            ParseMCNPSurface.normalize_surface, ParseMCNPSurface.to_surface_mcnp,
+            ParseMCNPSurface.to_surfaces_macro, ParseMCNPSurface.to_surfaces_mcnp,
+            MacroBodies.check_params_length, ESurfaceTypeMCNP.string_to_enum,
+            CellConversion.pot_expand_surfs, CellConversion.develop_lattice,
+            comp.compositionConversionMCNPToT4]
+
+
+# lines of the anchored functions that no deck of this property can reach, by
+# their source text
+UNREACHABLE = [
+    # proved unreachable: normalised transformations never have 13 entries
+    # (C17_tr_lengths_never_13)
+    "raise NotImplementedError('affine transformations with m!=1 '",
+    # normalize_matrix: a matrix given by columns needs nJ entries in a TR card
+    # (outside the model, see ASSUMPTIONS)
+    'return transpose(normalize_matrix3(transpose(matrix9)))',
+    'return transpose(normalize_matrix6(transpose(matrix9)))',
+    # expand_data_card is only called with dtype 'int' or 'float'
+    "raise ValueError('unrecognized dtype: {}'.format(dtype))",
+    # to_surface_mcnp: the cone tuple of every mcnp2cad entry has 3 entries
+    'compl_params = (*compl_params, None)',
+    "msg = f'Unexpected number of parameters for cone: {compl_params}'",
+    'raise ValueError(msg)',
+    # to_surfaces_macro: every macrobody of the enum has a branch
+    "raise NotImplementedError(f'Macrobody {enum_surface} is not '",
+    # develop_lattice is only called on lattice cells
+    'return',
+]
+
+
 def run(res, tier, seed, proofs_ok):
+    '''Everything below runs under a line tracer restricted to the anchored
+    functions: the generated inputs must execute every reachable line.'''
+    import c02_cov
+    cov = c02_cov.LineCov(anchored_functions())
+    with cov:
+        _run(res, tier, seed, proofs_ok)
+    total, missing = cov.missing(UNREACHABLE)
+    res.obligation(f'coverage: the generated inputs execute every reachable line '
+                   f'of the anchored validation code ({total} lines of '
+                   f'{len(cov.codes)} code objects)', not missing,
+                   f'never executed: {missing[:8]}')
+    res.extra['anchored_lines'] = total
+    if missing:
+        res.violation('harness-error',
+                      'generated inputs no longer reach these lines of the '
+                      f'anchored code: {missing[:10]}',
+                      {'theorem_or_correspondence': 'coverage',
+                       'input': {'lines': [list(m) for m in missing[:40]]}},
+                      found_input=False)
+
+
+def _run(res, tier, seed, proofs_ok):
     rng = random.Random(seed)
     quick = tier == 'quick'
     res.rule = ('valid decks drawn from 11 features (TR cards, surface TR, '
@@ -671,13 +837,18 @@ def run(res, tier, seed, proofs_ok):
 
     # ---- 1. known-finding witnesses --------------------------------------
     for cls, (text, args) in WITNESSES.items():
-        with warnings.catch_warnings():
-            warnings.simplefilter('ignore')
-            conv = impl.convert(text, args, keep_stdout=False)
-        res.count('witness:' + cls + (':accepted' if conv.ok else ':rejected'))
-        if conv.ok:
+        conv = convert_watchdog(text, args, 3.0 if "hang" in cls else 8.0)
+        still = conv.ok
+        if cls.startswith('anonymous_error'):
+            still = (not conv.ok) and not names_problem(conv.exc, conv.msg)
+        elif 'hang' in cls:
+            still = conv.exc == 'WatchdogTimeout'
+        res.count('witness:' + cls + (':still-fails' if still else ':repaired'))
+        if still:
             res.violation('impl-violation',
-                          f'malformed deck converted normally ({cls})',
+                          f'witness of {cls}: ' + (
+                              'converted normally' if conv.ok else
+                              f'{conv.exc}: {conv.msg[:80]}'),
                           {'input': {'deck_text': text, 'args': args}},
                           cls=cls, found_input=True)
 
@@ -884,10 +1055,17 @@ def run(res, tier, seed, proofs_ok):
 
     # ---- 2e. IMP cards, material cards -----------------------------------
     cases, metas = [], []
+    # abbreviations outside the model (skipped by the tie, executed for coverage)
+    fixed_imp = [[['imp:n', ['1', '2ilog', '8']]], [['imp:n', ['1', '2i', '4']]],
+                 [['imp:n', ['1', '3m', '2.0+0m']]], [['imp:n', ['1', 'm']]],
+                 [['imp:n', ['1', 'log', '4']]]]
     for _ in range(60 if quick else 600):
         ncards = rng.choice([0, 1, 1, 2, 2, 3])
         n = rng.randint(1, 6)
         cards = []
+        if fixed_imp:
+            cards = fixed_imp.pop()
+            ncards = 0
         names = rng.sample(['imp:n', 'imp:p', 'imp:e', 'imp:n,p'], ncards)
         for name in names:
             m = n if rng.random() < 0.7 else max(1, n + rng.choice([-1, 1, 2]))
@@ -900,6 +1078,11 @@ def run(res, tier, seed, proofs_ok):
                 toks[-1] = 'r'
             elif how < 0.36 and m > 1:
                 toks[rng.randrange(1, m)] = rng.choice(['j', '2j'])
+            elif how < 0.45 and m > 2:
+                # abbreviations outside the model (the tie skips them, the lines
+                # of expand_data_card are still executed)
+                toks[rng.randrange(1, m - 1)] = rng.choice(
+                    ['2m', '1.5+0m', 'm', 'i', '2i', 'ilog', '2log'])
             elif how < 0.4 and m > 1:
                 # (a first token that is not a number is taken into the card
                 # name by MIP's card splitting: outside the model)
@@ -977,8 +1160,22 @@ def run(res, tier, seed, proofs_ok):
                           f'faulted deck ({cls}: {where}) converted normally',
                           payload, cls=classify(cls, where, deck),
                           found_input=True)
-        if cls is not None and out[0] == 'err' and out[2] == 'SystemExit':
-            pass
+        if out[0] == 'err' and out[2] == 'WatchdogTimeout':
+            res.violation('impl-violation',
+                          f'the conversion does not end ({cls}: {where})',
+                          payload, cls=('hex_lattice_nonprism_hang'
+                                        if cls == 'hex_nonprism' else None),
+                          found_input=True)
+        elif cls is not None and cls not in G.NEUTRAL and out[0] == 'err' \
+                and not names_problem(out[2], out[3]):
+            res.count(f'anonymous:{cls}:{out[2]}')
+            res.violation('impl-violation',
+                          f'faulted deck ({cls}: {where}) is rejected by an '
+                          f'error that does not name the problem: {out[2]}: '
+                          f'{out[3][:80]}', payload,
+                          cls=ANONYMOUS_CLASS.get(cls), found_input=True)
+        if cls in G.SWEEP_ONLY:
+            continue
         deck_cases.append(cpair(G.cdeck(deck), G.cres(out, lambda _v: 'tt')))
         deck_metas.append((deck, cls, where, out))
         if len(res.samples) < 3 and cls is not None:
